@@ -86,6 +86,20 @@ def inline(e, fn, stop=()):
     return Inliner(local_defs(fn), stop).visit(ast.parse(pyfe.src(e), mode="eval").body)
 
 
+def inline_stmt(st, fn, stop=()):
+    """a copy of statement st with the single-assignment locals of fn written out (conditions, arguments, stored values);
+    line numbers are kept"""
+    from .pynorm import clone
+    c = clone(st)
+    c = Inliner(local_defs(fn), stop).visit(c)
+    ast.fix_missing_locations(c)
+    for n in ast.walk(c):
+        if not hasattr(n, "lineno"):
+            n.lineno = getattr(st, "lineno", 0)
+        n._file = getattr(st, "_file", None)
+    return c
+
+
 def isrc(e, fn, stop=()):
     return pyfe.src(inline(e, fn, stop))
 
